@@ -1,6 +1,7 @@
 import PgsVerif.Model.Proto
 import PgsVerif.Model.CleanName
 import PgsVerif.Model.NameSplit
+import PgsVerif.Model.Params
 /-
   JSON glue: one `Engine` per correspondence.  Only decoding/encoding lives here; every function
   called is the very definition the theorems in `PgsVerif/Props` are about.
@@ -88,7 +89,15 @@ def engine : Engine :=
     (fun i o => judge (i.up.contains ·) (i.dg.contains ·) i.img' i.name ⟨o.parts, o.conv⟩)
 end C15
 
+/-! ### C19 parameters -/
+namespace C19
+deriving instance FromJson, ToJson for ClOp
+deriving instance FromJson, ToJson for In
+deriving instance FromJson, ToJson for Obs
+def engine : Engine := mkEngine (I := In) (O := Obs) model dom judge
+end C19
+
 def engines : List (String × Engine) :=
-  [ ("c11", C11.engine), ("fp", FP.engine), ("c15", C15.engine) ]
+  [ ("c11", C11.engine), ("fp", FP.engine), ("c15", C15.engine), ("c19", C19.engine) ]
 
 end Pgs
